@@ -135,6 +135,10 @@ class SharedJoin(MVPN):
             )
         cursor += sourceiplen
 
+        # the source length is the peer's: it must leave room for the group length octet
+        if cursor >= len(packed):
+            raise Notify(3, 5, f'C-Multicast Route is too short for a source of {sourceiplen * 8} bits.')
+
         # Validate group IP length
         groupiplen = int(packed[cursor] / 8)
         if groupiplen != IPv4.BYTES and groupiplen != IPv6.BYTES:
